@@ -183,15 +183,34 @@ def r4(ctx):
         bad = [o for o in outs2 if "on_close" not in [e.name for e in o.effects] or any(e.name.endswith(".reconnect") for e in o.effects)]
         ctx.ob(f"{RF}.read:CLOSE:custom_dispatcher={custom}:no-reconnect", not bad and bool(outs2), "close frame -> teardown, no reconnect scheduled" if not bad else
                f"effects {[e.name for e in bad[0].effects]}", ctx.index.loc(ctx.index.func(f'{RF}.read').node))
-    # all loop conditions read keep_running
-    conds = []
-    for q in ("_dispatcher:Dispatcher.read", "_dispatcher:SSLDispatcher.read", RF, f"{APP}._send_ping"):
-        for n in ctx.index.own_nodes(ctx.index.func(q).node):
-            if isinstance(n, ast.While):
-                conds.append((q, "keep_running" in text(n.test), n))
-    bad = [c for c in conds if not c[1]]
-    ctx.ob("package:loops-read-keep_running", len(conds) >= 4 and not bad, f"{len(conds)} loops, all conditioned on keep_running" if not bad else
-           f"loop in {bad[0][0]} does not consult keep_running", ctx.index.loc(bad[0][2]) if bad else "")
+    # every loop stops once keep_running is False (decided by interpretation, not by the spelling of the loop condition)
+    from .c13 import _disp_paths
+    for cls in ("_dispatcher:Dispatcher", "_dispatcher:SSLDispatcher"):
+        st = sock_stubs(extra={"selectors.DefaultSelector": lambda I, run, a, k, n: new_obj(run, None, "sel"),
+                               "sel.register": lambda *a: NONE, "sel.close": lambda I, run, a, k, n: (run.effect("sel.close", ()), NONE)[1],
+                               "sel.select": lambda I, run, a, k, n: (run.effect("sel.select", a), Tup(()))[1],
+                               "rawsock.pending": lambda I, run, a, k, n: (run.effect("pending", ()), FALSE)[1],
+                               "read_callback": lambda I, run, a, k, n: (run.effect("read_callback", ()), TRUE)[1],
+                               "check_callback": lambda I, run, a, k, n: (run.effect("check_callback", ()), TRUE)[1]})
+        Id = Interp(ctx.index, Config(stubs=st, loop_unroll=2))
+
+        def body(run, cls=cls):
+            app = new_obj(run, None, "app", keep_running=FALSE, sock=new_obj(run, None, "appsock", sock=Sym("rawsock", "obj")))
+            d = Id.call(run, Cls(cls), [app, C(10)], {}, None)
+            return Id.call(run, Id.getattr(run, d, "read", None), [Sym("rawsock", "obj"), Sym("read_callback", "func"), Sym("check_callback", "func")], {}, None)
+
+        outs = ctx.count_paths(Id.explore(body))
+        badl = [o for o in outs if o.kind != "return" or any(e.name in ("sel.select", "read_callback", "pending") for e in o.effects)]
+        ctx.ob(f"{cls}.read:stops-when-keep_running-is-false", not badl and bool(outs), "with keep_running False the loop neither waits nor reads" if not badl else
+               f"with keep_running already False the loop still performs {[e.name for e in badl[0].effects]} / ends as {badl[0].kind}", ctx.index.loc(ctx.index.func(f"{cls}.read").node))
+    # ping loop
+    stp = sock_stubs(extra={"stopev.wait": lambda I, run, a, k, n: (run.effect("wait", a), FALSE)[1], "time.time": lambda I, run, a, k, n: Sym("now", "int")})
+    Ip = Interp(ctx.index, Config(stubs=stp, loop_unroll=2))
+    outs = ctx.count_paths(Ip.explore(lambda run: Ip.call(run, Ip.getattr(run, mk_app(Ip, run, keep_running=FALSE, sock=mk_sock(run), stop_ping=new_obj(run, None, "stopev"),
+                                                                                  ping_interval=C(5)), "_send_ping", None), [], {}, None)))
+    badp = [o for o in outs if o.kind != "return" or any(e.name == "appsock.ping" for e in o.effects)]
+    ctx.ob(f"{APP}._send_ping:stops-when-keep_running-is-false", not badp and bool(outs), "no ping is sent once keep_running is False" if not badp else
+           "the ping loop still pings although keep_running is False", ctx.index.loc(ctx.index.func(f"{APP}._send_ping").node))
 
 
 @rule("R-C15-5", min_instances=2, title="reconnect=None takes the module default; a falsy interval disables every reconnect edge")
